@@ -335,4 +335,224 @@ theorem Rel.store (v : Val) (ho : h.get o = .inst fs) : Rel h (storeField h o n 
 
 end store
 
+/-! ### membership in the from-scratch list -/
+
+theorem mem_hookListCs (h : Heap) (k : HKey) (ob : Observer) (x : W) (cs : List Graph) (it : Item) :
+    it ∈ hookListCs h k ob x cs ↔ ∃ c ∈ cs, ∃ y ∈ okOr [] (objects h ob x), it ∈ hookList h k true c y := by
+  induction cs with
+  | nil => simp [hookListCs]
+  | cons c cs ih =>
+    rw [hookListCs_cons, List.mem_append, ih, List.mem_flatMap]
+    constructor
+    · rintro (⟨y, hy, hm⟩ | ⟨c', hc', y, hy, hm⟩)
+      · exact ⟨c, List.mem_cons_self .., y, hy, hm⟩
+      · exact ⟨c', List.mem_cons_of_mem _ hc', y, hy, hm⟩
+    · rintro ⟨c', hc', y, hy, hm⟩
+      cases hc' with
+      | head => exact Or.inl ⟨y, hy, hm⟩
+      | tail _ h' => exact Or.inr ⟨c', h', y, hy, hm⟩
+
+theorem mem_hookList_own (h : Heap) (k : HKey) (e : Bool) (ob : Observer) (cs : List Graph) (x : W) (it : Item)
+    (hm : it ∈ ownItems h k ob cs x) : it ∈ hookList h k e (.node ob cs) x := by
+  rw [hookList_node]; simp [hm]
+
+theorem mem_hookList_child (h : Heap) (k : HKey) (e : Bool) (ob : Observer) (cs : List Graph) (x : W) (it : Item)
+    (c : Graph) (hc : c ∈ cs) (y : W) (hy : y ∈ okOr [] (objects h ob x)) (hm : it ∈ hookList h k true c y) :
+    it ∈ hookList h k e (.node ob cs) x := by
+  rw [hookList_node]
+  have := (mem_hookListCs h k ob x cs it).2 ⟨c, hc, y, hy, hm⟩
+  simp [this]
+
+/-- at a visit every child graph leaves a maintainer on the mutated trait -/
+theorem visit_item (h : Heap) (k : HKey) (ob : Observer) (cs : List Graph) (x : W) (o : Id) (n : Name)
+    (hr : readsAt ob x o n = true) (ht : hasTrait h x n = true) (c : Graph) (hc : c ∈ cs) :
+    (Observable.trait o n, NKey.maint .trait c k) ∈ ownItems h k ob cs x := by
+  cases ob with
+  | named m nt opt =>
+    simp only [readsAt, Bool.and_eq_true, beq_iff_eq] at hr
+    obtain ⟨rfl, rfl⟩ := hr
+    simp only [ownItems, observables, ht, if_true, okOr, List.mem_append, List.mem_flatMap, List.mem_map]
+    exact Or.inr ⟨.trait o m, by simp, c, hc, rfl⟩
+  | _ => simp [readsAt] at hr
+
+theorem flatMap_congr' {α β} (l : List α) (f g : α → List β) (hfg : ∀ a ∈ l, f a = g a) :
+    l.flatMap f = l.flatMap g := by
+  induction l with
+  | nil => rfl
+  | cons a l ih =>
+    rw [List.flatMap_cons, List.flatMap_cons, hfg a (List.mem_cons_self ..),
+      ih (fun b hb => hfg b (List.mem_cons_of_mem _ hb))]
+
+/-! ### L3: a walk that never touches the mutated trait is the same in both heaps -/
+
+def LocalSpec (h h' : Heap) (k : HKey) (o : Id) (n : Name) (g : Graph) : Prop :=
+  g.noFiltered = true → ∀ (e : Bool) (x : W), (∀ it ∈ hookList h k e g x, it.1 ≠ .trait o n) →
+    hookList h' k e g x = hookList h k e g x
+
+theorem locality {h h' : Heap} {o : Id} {n : Name} {new : Val} (R : Rel h h' o n new) (k : HKey) :
+    ∀ g, LocalSpec h h' k o n g := by
+  apply Graph.ind
+  intro ob cs ih hnf e x hno
+  obtain ⟨hf, hcs⟩ := (Graph.noFiltered_node ob cs).1 hnf
+  -- with a child, the node does not read `o.n` (else its maintainer sits on the mutated trait)
+  have hobj : cs ≠ [] → objects h' ob x = objects h ob x := by
+    intro hne
+    by_cases hr : readsAt ob x o n = true
+    · by_cases ht : hasTrait h x n = true
+      · exfalso
+        obtain ⟨c, hc⟩ := List.exists_mem_of_ne_nil cs hne
+        exact hno _ (mem_hookList_own h k e ob cs x _ (visit_item h k ob cs x o n hr ht c hc)) rfl
+      · exact R.objsN ob x hr (by simpa using ht)
+    · exact R.objs ob x hf (by simpa using hr)
+  have hC : ∀ cs' : List Graph, (∀ c ∈ cs', c ∈ cs) → hookListCs h' k ob x cs' = hookListCs h k ob x cs' := by
+    intro cs'
+    induction cs' with
+    | nil => intro _; rfl
+    | cons c cs' ihc =>
+      intro hsub
+      have hc := hsub c (List.mem_cons_self ..)
+      have hne : cs ≠ [] := by intro e'; rw [e'] at hc; cases hc
+      rw [hookListCs_cons, hookListCs_cons, ihc (fun c' hc' => hsub c' (List.mem_cons_of_mem _ hc')), hobj hne]
+      congr 1
+      apply flatMap_congr'
+      intro y hy
+      exact ih c hc (hcs c hc) true y (fun it hit => hno it (mem_hookList_child h k e ob cs x it c hc y hy hit))
+  rw [hookList_node, hookList_node, hC cs (fun c hc => hc), ownItems_rel R k ob cs x hf, R.ext ob x hf]
+
+/-! ### the maintainers `stable` leaves on the mutated trait are the visits -/
+
+def visitHits (k : HKey) (vs : List Graph) (q0 : NKey) : Nat :=
+  (vs.map (fun c => hit (NKey.maint .trait c k) q0)).sum
+
+theorem visitHits_append (k : HKey) (a b : List Graph) (q0 : NKey) :
+    visitHits k (a ++ b) q0 = visitHits k a q0 + visitHits k b q0 := by
+  simp [visitHits, List.map_append, List.sum_append]
+
+theorem visitHits_flatMap {α} (k : HKey) (l : List α) (f : α → List Graph) (q0 : NKey) :
+    visitHits k (l.flatMap f) q0 = (l.map (fun a => visitHits k (f a) q0)).sum := by
+  induction l with
+  | nil => rfl
+  | cons a l ih => simp [List.flatMap_cons, visitHits_append, ih]
+
+theorem cntItems_map_user (k : HKey) (os : List Observable) (o' : Observable) (mk : MKind) (c0 : Graph) (k0 : HKey) :
+    cntItems (os.map (fun ob' => (ob', NKey.user k))) o' (.maint mk c0 k0) = 0 := by
+  induction os with
+  | nil => rfl
+  | cons a os ih => rw [List.map_cons, cntItems_cons, ih]; simp [wt, hit, NKey.equals]
+
+theorem cntItems_map_added (g : Graph) (k : HKey) (os : List Observable) (o' : Observable) (c0 : Graph) (k0 : HKey) :
+    cntItems (os.map (fun ob' => (ob', NKey.maint .added g k))) o' (.maint .trait c0 k0) = 0 := by
+  induction os with
+  | nil => rfl
+  | cons a os ih => rw [List.map_cons, cntItems_cons, ih]; simp [wt, hit, NKey.equals]
+
+theorem cntItems_maint_at (ob' o' : Observable) (mk : MKind) (k : HKey) (cs : List Graph) (q0 : NKey) :
+    cntItems (cs.map (fun c => (ob', NKey.maint mk c k))) o' q0 =
+      if ob' = o' then (cs.map (fun c => hit (NKey.maint mk c k) q0)).sum else 0 := by
+  induction cs with
+  | nil => simp [cntItems_nil]
+  | cons c cs ih =>
+    rw [List.map_cons, cntItems_cons, ih]
+    by_cases e : ob' = o' <;> simp [wt, e]
+
+/-- own items of a node on the mutated trait, for a trait-maintainer key -/
+theorem ownItems_at_target (h : Heap) (k : HKey) (ob : Observer) (cs : List Graph) (x : W) (o : Id) (n : Name)
+    (hf : ob.isFiltered = false) (c0 : Graph) (k0 : HKey) :
+    cntItems (ownItems h k ob cs x) (.trait o n) (.maint .trait c0 k0) =
+      visitHits k (if readsAt ob x o n && hasTrait h x n then cs else []) (.maint .trait c0 k0) := by
+  unfold ownItems
+  rw [cntItems_append]
+  have hu : cntItems (if ob.notify then (okOr [] (observables h ob x)).map (fun o' => (o', NKey.user k)) else [])
+      (.trait o n) (.maint .trait c0 k0) = 0 := by
+    split
+    · exact cntItems_map_user k _ _ _ _ _
+    · rfl
+  rw [hu, Nat.zero_add, cntItems_flatMap]
+  cases ob with
+  | filtered fl nt => simp [Observer.isFiltered] at hf
+  | named m nt opt =>
+    cases x with
+    | none =>
+      have : readsAt (.named m nt opt) none o n = false := by simp [readsAt]
+      simp only [this, Bool.false_and, Bool.false_eq_true, if_false, visitHits, List.map_nil, List.sum_nil]
+      simp only [observables]
+      split <;> simp [okOr]
+    | some i =>
+      simp only [observables]
+      by_cases ht : hasTrait h (some i) m = true
+      · simp only [ht, if_true, okOr, List.map_cons, List.map_nil, List.sum_cons, List.sum_nil, Nat.add_zero,
+          cntItems_maint_at, Observer.mkind]
+        by_cases e : i = o ∧ m = n
+        · obtain ⟨rfl, rfl⟩ := e
+          simp [readsAt, ht, visitHits]
+        · have : readsAt (.named m nt opt) (some i) o n = false := by
+            simp only [readsAt, Bool.and_eq_false_iff, beq_eq_false_iff_ne, ne_eq, Option.some.injEq]
+            by_cases e1 : i = o
+            · exact Or.inr (fun e2 => e ⟨e1, e2⟩)
+            · exact Or.inl e1
+          have hne : ¬ (Observable.trait i m = Observable.trait o n) := by
+            intro e'; injection e' with a b; exact e ⟨a, b⟩
+          simp [this, hne, visitHits]
+      · have ht' : hasTrait h (some i) m = false := by simpa using ht
+        have : (readsAt (.named m nt opt) (some i) o n && hasTrait h (some i) n) = false := by
+          by_cases e : m = n
+          · subst e; simp [ht']
+          · simp [readsAt, e]
+        simp only [ht', Bool.false_eq_true, if_false, this, visitHits, List.map_nil, List.sum_nil]
+        split <;> simp [okOr]
+  | listItems nt opt =>
+    have hr : readsAt (.listItems nt opt) x o n = false := rfl
+    simp only [hr, Bool.false_and, Bool.false_eq_true, if_false, visitHits, List.map_nil, List.sum_nil, observables]
+    split
+    · simp [okOr, cntItems_maint_at]
+    · split <;> simp [okOr]
+  | dictItems nt opt =>
+    have hr : readsAt (.dictItems nt opt) x o n = false := rfl
+    simp only [hr, Bool.false_and, Bool.false_eq_true, if_false, visitHits, List.map_nil, List.sum_nil, observables]
+    split
+    · simp [okOr, cntItems_maint_at]
+    · split <;> simp [okOr]
+  | setItems nt opt =>
+    have hr : readsAt (.setItems nt opt) x o n = false := rfl
+    simp only [hr, Bool.false_and, Bool.false_eq_true, if_false, visitHits, List.map_nil, List.sum_nil, observables]
+    split
+    · simp [okOr, cntItems_maint_at]
+    · split <;> simp [okOr]
+
+def StableSpec (h : Heap) (k : HKey) (o : Id) (n : Name) (g : Graph) : Prop :=
+  g.noFiltered = true → ∀ (e : Bool) (x : W) (c0 : Graph) (k0 : HKey),
+    cntItems (stable h k o n e g x) (.trait o n) (.maint .trait c0 k0) =
+      visitHits k (visits h o n g x) (.maint .trait c0 k0)
+
+theorem stable_at_target (h : Heap) (k : HKey) (o : Id) (n : Name) : ∀ g, StableSpec h k o n g := by
+  apply Graph.ind
+  intro ob cs ih hnf e x c0 k0
+  obtain ⟨hf, hcs⟩ := (Graph.noFiltered_node ob cs).1 hnf
+  have hC : ∀ cs' : List Graph, (∀ c ∈ cs', c ∈ cs) →
+      cntItems (stableCs h k o n ob x cs') (.trait o n) (.maint .trait c0 k0) =
+        visitHits k (visitsCs h o n ob x cs') (.maint .trait c0 k0) := by
+    intro cs'
+    induction cs' with
+    | nil => intro _; rfl
+    | cons c cs' ihc =>
+      intro hsub
+      have hc := hsub c (List.mem_cons_self ..)
+      simp only [stableCs, visitsCs, cntItems_append, visitHits_append,
+        ihc (fun c' hc' => hsub c' (List.mem_cons_of_mem _ hc'))]
+      by_cases hr : readsAt ob x o n = true
+      · simp [hr, cntItems_nil, visitHits]
+      · have hr' : readsAt ob x o n = false := by simpa using hr
+        simp only [hr', Bool.false_eq_true, if_false, cntItems_flatMap, visitHits_flatMap]
+        have : ∀ y, cntItems (stable h k o n true c y) (.trait o n) (.maint .trait c0 k0) =
+            visitHits k (visits h o n c y) (.maint .trait c0 k0) := fun y => ih c hc (hcs c hc) true y c0 k0
+        simp only [this]
+  simp only [stable, visits, cntItems_append, visitHits_append, hC cs (fun c hc => hc),
+    ownItems_at_target h k ob cs x o n hf c0 k0]
+  have : cntItems (if e then (okOr [] (extraObservables h ob x)).map
+      (fun ob' => (ob', NKey.maint .added (.node ob cs) k)) else []) (.trait o n) (.maint .trait c0 k0) = 0 := by
+    split
+    · exact cntItems_map_added _ _ _ _ _ _
+    · rfl
+  rw [this]; omega
+
 end TraitsVerif.Model.Obs
